@@ -8,6 +8,7 @@ import LibfiveTheorems.C06
 #print axioms Libfive.C06.jacobian_gradient
 #print axioms Libfive.C06.constVar_kernel
 #print axioms Libfive.C06.feature_is_branch_gradient
+#print axioms Libfive.C06.used_lanes_computed
 #print axioms Libfive.C06.features_subset
 #print axioms Libfive.C06.isInside_sign
 #print axioms Libfive.derivRowS_get
